@@ -392,6 +392,63 @@ func shortcutsC09(c *Ctx, tt *tokenTable, rule string) {
 		c.Unk(rule, "anchors", 0, "reduceBinaryExpr/reduce/isTrueLiteral/isFalseLiteral not found")
 		return
 	}
+	// the short-cuts may live in a helper that receives (operator, left, right)
+	// and answers nil for "no short-cut": then the helper is what is evaluated
+	callsPred := func(g *ssa.Function) bool {
+		for _, b := range g.Blocks {
+			for _, in := range b.Instrs {
+				if call, ok := in.(*ssa.Call); ok {
+					if cal := call.Call.StaticCallee(); cal == isT || cal == isF {
+						return true
+					}
+				}
+			}
+		}
+		return false
+	}
+	var helperArgs func(opName string) []cval
+	if !callsPred(f) {
+		var helper *ssa.Function
+		for _, b := range f.Blocks {
+			for _, in := range b.Instrs {
+				if call, ok := in.(*ssa.Call); ok {
+					if cal := call.Call.StaticCallee(); cal != nil && cal.Pkg == f.Pkg && len(cal.Blocks) > 0 && callsPred(cal) {
+						helper = cal
+					}
+				}
+			}
+		}
+		if helper == nil {
+			c.Unk(rule, "reduceBinaryExpr: boolean short-cuts", f.Pos(), "isTrueLiteral/isFalseLiteral are not consulted in reduceBinaryExpr or in a helper it calls directly")
+			return
+		}
+		nTok, nExpr := 0, 0
+		for _, prm := range helper.Params {
+			if types.Identical(prm.Type(), tt.Type) {
+				nTok++
+			} else if p.TypeStr(prm.Type()) == "Expr" {
+				nExpr++
+			}
+		}
+		if nTok != 1 || nExpr != 2 || len(helper.Params) != 3 {
+			c.Unk(rule, "reduceBinaryExpr: boolean short-cuts", helper.Pos(), "the helper holding the short-cuts does not take (operator, left, right)")
+			return
+		}
+		f = helper
+		helperArgs = func(opName string) []cval {
+			var out []cval
+			nE := 0
+			for _, prm := range helper.Params {
+				if types.Identical(prm.Type(), tt.Type) {
+					out = append(out, tt.cv(opName))
+				} else {
+					out = append(out, cSym([]string{"L", "R"}[nE]))
+					nE++
+				}
+			}
+			return out
+		}
+	}
 	var opLoads []ssa.Value
 	for _, b := range f.Blocks {
 		for _, in := range b.Instrs {
@@ -439,11 +496,20 @@ func shortcutsC09(c *Ctx, tt *tokenTable, rule string) {
 					}
 					return nil, false
 				}
-				r := s.run(f, nil, 0)
+				var runArgs []cval
+				if helperArgs != nil {
+					runArgs = helperArgs(opName)
+				}
+				r := s.run(f, runArgs, 0)
 				var rets []*ssa.Return
 				for _, b := range f.Blocks {
 					if r.execB[b.Index] {
 						if ret, ok := b.Instrs[len(b.Instrs)-1].(*ssa.Return); ok {
+							if helperArgs != nil {
+								if k, isC := ret.Results[0].(*ssa.Const); isC && k.Value == nil {
+									continue // the helper's "no short-cut" answer
+								}
+							}
 							rets = append(rets, ret)
 						}
 					}
